@@ -46,17 +46,16 @@ var (
 //	"work"   {BASE}/work, an empty directory made for the purpose ("../src", "../out.zip", "../dest"); must stay empty
 //	"parent" the directory that holds {BASE} ("<name of BASE>/src": a relative spelling of two components)
 //
-// The source directory takes Rel only (plus TreeCase.TrailingSlash): ZipFolder is documented by its tests with clean paths,
-// and the unchanged code derives entry names by cutting len(srcDir) bytes off paths that filepath.Walk has cleaned, which
-// is only right for a clean spelling (see SrcUnclean). Archive and destination take every Decor (the destination every Trail too).
+// The source directory takes Rel and TreeCase.TrailingSlash, and with SrcUnclean every Decor and Trail; archive and
+// destination take every Decor (the destination every Trail too).
 type Spelling struct {
 	Cwd  string `json:"cwd,omitempty"`
 	Src  Spell  `json:"src,omitzero"`
 	Zip  Spell  `json:"zip,omitzero"`
 	Dest Spell  `json:"dest,omitzero"`
-	// SrcUnclean: let Src.Decor / Src.Trail through for the source directory as well. Never drawn by the generators of the
-	// check (the unchanged ZipFolder stores wrong entry names for "./src", "a/./src", "a/../src", "src/." and skips every
-	// file of "src//" when not recursive); kept for the probe test and for a later widening of the domain.
+	// SrcUnclean: let Src.Decor / Src.Trail through for the source directory as well ("./src", "a/./src", "a/../src",
+	// "src/.", "src//"): the tree is the same tree however its directory is spelled. (The tree at the pinned commit stored
+	// wrong entry names for such spellings and skipped every file of "src//" when not recursive: defect 16 of DESIGN.md §5.)
 	SrcUnclean bool `json:"src_unclean,omitempty"`
 }
 
